@@ -1,0 +1,25 @@
+//go:build verif
+// +build verif
+
+package bitmap
+
+// VerifTables returns copies of the package-level lookup tables, including the
+// unexported select8Lookup, for verification harnesses that check the tables
+// are never modified after initialisation.
+//
+// It is compiled only with "-tags verif".
+func VerifTables() [][]uint64 {
+	sel := make([]uint64, len(select8Lookup))
+	for i, v := range select8Lookup {
+		sel[i] = uint64(v)
+	}
+	return [][]uint64{
+		append([]uint64(nil), Mask[:]...),
+		append([]uint64(nil), RMask[:]...),
+		append([]uint64(nil), MaskUpto[:]...),
+		append([]uint64(nil), RMaskUpto[:]...),
+		append([]uint64(nil), Bit[:]...),
+		append([]uint64(nil), RBit[:]...),
+		sel,
+	}
+}
